@@ -266,22 +266,31 @@ def family_f2(rng, count, nmax=4, max_shared=3, max_eventless=2, prios=(-1, 0, 1
 
 
 def family_nested(rng, count, max_oracle=5):
-    """Nested orthogonal states with one shared event: three or more transitions enabled at once,
-    in regions of different orthogonal states (pairwise checks, orders, nested conflicts)."""
+    """Nested orthogonal states with one shared event: three or more transitions enabled at once, in regions of
+    different orthogonal states (pairwise checks, orders, nested conflicts).  Half of the charts wrap the
+    orthogonal state in a compound root with an outside state (transitions from outside into deeply nested
+    regions leave several orthogonal states incomplete at once); some states own two transitions on the event."""
     out = []
     while len(out) < count:
-        kind, parent = ['orthogonal'], [0]
+        wrap = rng.random() < 0.5
+        kind, parent = [], []
 
         def add(k, p):
             kind.append(k)
             parent.append(p)
             return len(kind)
 
+        if wrap:
+            r0 = add('compound', 0)
+            outside = add('basic', r0)
+            top = add('orthogonal', r0)
+        else:
+            top = add('orthogonal', 0)
         regions = rng.randint(2, 3)
         for _ in range(regions):
             r = rng.random()
             if r < 0.5:
-                q = add('orthogonal', 1)
+                q = add('orthogonal', top)
                 for _ in range(rng.randint(2, 3)):
                     if rng.random() < 0.25:
                         cc = add('compound', q)
@@ -289,13 +298,13 @@ def family_nested(rng, count, max_oracle=5):
                     else:
                         add('basic', q)
             elif r < 0.85:
-                q = add('compound', 1)
+                q = add('compound', top)
                 for _ in range(rng.randint(1, 2)):
                     add('basic', q)
             else:
-                add('basic', 1)
+                add('basic', top)
         n = len(kind)
-        if n > 10:
+        if n > 11:
             continue
         initial = [0] * n
         for s in range(1, n + 1):
@@ -314,16 +323,34 @@ def family_nested(rng, count, max_oracle=5):
         trans = []
         g = 0
         for s in range(1, n + 1):
+            if c['kind'][s - 1] not in TRANS_KINDS:
+                continue
             leaf = not children(c, s)
-            if rng.random() < (0.85 if leaf else 0.25):
-                tg = rng.choice([0, 0] + [t for t in range(1, n + 1) if wf_transition(c, s, t)])
-                guarded = rng.random() < 0.3 and g < max_oracle
-                g += guarded
-                trans.append(mk_trans(s, tg, 1, rng.choice([0, 0, 1]), 'oracle' if guarded else 'none'))
+            for rep in range(2):
+                if rep == 1 and rng.random() > 0.25:
+                    break
+                if rng.random() < (0.85 if leaf else 0.25):
+                    tg = rng.choice([0, 0] + [t for t in range(1, n + 1) if wf_transition(c, s, t)])
+                    guarded = rng.random() < 0.3 and g < max_oracle
+                    g += guarded
+                    trans.append(mk_trans(s, tg, 1, rng.choice([0, 0, 1]), 'oracle' if guarded else 'none'))
+        if wrap:
+            o_, t_ = m[2], m[3]
+            deep = [x for x in range(1, n + 1) if depth(c, x) >= 4 and wf_transition(c, o_, x)]
+            for x in rng.sample(deep, min(2, len(deep))):
+                trans.append(mk_trans(o_, x, 2))
+            trans.append(mk_trans(t_, o_, 3))
+            trans.append(mk_trans(o_, t_, 3))
         if len(trans) < 3:
             continue
-        c['trans'] = trans
-        c['events'] = [1, 2]
+        seen, tr2 = set(), []
+        for t in trans:
+            k = (t['src'], t['tgt'], t['ev'], t['prio'], t['gk'])
+            if k not in seen:
+                seen.add(k)
+                tr2.append(t)
+        c['trans'] = tr2
+        c['events'] = [1, 2, 3, 4]
         assert wf(c), c
         out.append(c)
     return out
